@@ -1,307 +1,243 @@
-(* C15 / from_finite_language: add_to_trie in closed form (walk along the common prefix, which changes nothing;
-   one new edge at the branching state; a fresh chain of states) and the invariant after it. *)
-From Coq Require Import List Arith Bool Lia.
-From AV Require Import Base.Util Spec.Lang Spec.FA Spec.DictOrder Spec.Preds Model.FiniteLang
-                       Proofs.Preds Proofs.FLDict Proofs.FLInv.
+(* C15 / from_finite_language: the main loop over the sorted words, the renaming of the states to numbers,
+   `_to_complete`, and the language / validity theorem of the mirror model (Model/FiniteLang.v). *)
+From Coq Require Import List Arith Bool Lia Sorted.
+From AV Require Import Base.Util Spec.Lang Spec.FA Spec.DictOrder Spec.Preds
+                       Model.Decide Model.Product Model.DFAOps Model.Construct Model.Validate Model.FiniteLang
+                       Proofs.Preds Proofs.FARun Proofs.DFAOps2 Proofs.Construct Proofs.Validate
+                       Proofs.FLDict Proofs.FLInv Proofs.FLAdd.
 Import ListNotations.
 
-Fixpoint chain (p r : word) : list (word * wrow) :=
-  match r with
-  | [] => [(p, [])]
-  | b :: r' => (p, [(b, p ++ [b])]) :: chain (p ++ [b]) r'
-  end.
-
-Fixpoint bchain (p r : word) : list (word * list word) :=
-  match r with
-  | [] => []
-  | b :: r' => (p ++ [b], [p]) :: bchain (p ++ [b]) r'
-  end.
-
-Lemma app_neq_self (p y : word) : y <> [] -> p ++ y <> p.
+(* ---------- add_to_trie, packaged ---------- *)
+Lemma add_ok s done u a r : Inv s done u ->
+  (forall y w, y <> [] -> pre y (a :: r) -> In w done -> ~ pre (u ++ y) w) ->
+  Inv (add_to_trie s (u ++ a :: r)) ((u ++ a :: r) :: done) (u ++ a :: r).
 Proof.
-  intros Hy E. apply (f_equal (@length nat)) in E. rewrite app_length in E. destruct y; [congruence|simpl in E; lia].
+  intros HI Hf. destruct (u_row s done u a r HI Hf) as [row [Hrow Ha]].
+  rewrite (add_closed s done u a r HI Hf row Hrow Ha). exact (add_inv s done u a r HI Hf row Hrow Ha).
 Qed.
 
-Lemma snoc_app (p : word) c y : (p ++ [c]) ++ y = p ++ c :: y.
-Proof. rewrite <- app_assoc. reflexivity. Qed.
+(* ---------- the first word ---------- *)
+Definition fl_init' : flst := mkfl [([], [])] [([], [])] [] [].
 
-Lemma chain_lookup : forall r p y1 y2, r = y1 ++ y2 ->
-  wassoc (p ++ y1) (chain p r) = Some (match y2 with [] => [] | b :: _ => [(b, p ++ y1 ++ [b])] end).
+Lemma key_singleton q (row : wrow) : key q [([], row)] -> q = [].
+Proof. unfold key. simpl. weq q ([] : word); [auto|congruence]. Qed.
+
+Lemma delta_init q b (row : wrow) : row = [] -> wdelta [([], row)] q b = None.
+Proof. intros ->. unfold wdelta. simpl. destruct (word_eqb q []); reflexivity. Qed.
+
+Lemma pre_nil_inv (x : word) : pre x [] -> x = [].
+Proof. intros [t E]. symmetry in E. apply app_eq_nil in E. tauto. Qed.
+
+Lemma init'_inv : Inv fl_init' [] [].
 Proof.
-  induction r as [|c r IH]; intros p y1 y2 E.
-  - destruct y1; [|discriminate]. simpl in E. subst y2. simpl. rewrite app_nil_r, weqb_refl. reflexivity.
-  - destruct y1 as [|d y1]; simpl in E.
-    + subst y2. simpl. rewrite app_nil_r, weqb_refl. reflexivity.
-    + inversion E; subst. simpl. weq (p ++ d :: y1) p; [exfalso; exact (app_neq_self p (d :: y1) ltac:(discriminate) E0)|].
-      rewrite <- (snoc_app p d y1). rewrite (IH (p ++ [d]) y1 y2 eq_refl). destruct y2; rewrite ?snoc_app; reflexivity.
+  constructor; simpl.
+  - constructor; [intros []|constructor].
+  - intros q row H. weq q ([] : word); [|discriminate]. inversion H. constructor.
+  - intros x Hx. apply pre_nil_inv in Hx. subst. unfold key. simpl. discriminate.
+  - intros x b Hx. apply pre_nil_inv in Hx. destruct x; discriminate.
+  - intros q b r Hd. rewrite delta_init in Hd by reflexivity. discriminate.
+  - intros x Hx v. apply pre_nil_inv in Hx. subst. split; [|intros []].
+    destruct v as [|b v]; unfold wacc; simpl; [discriminate|]. rewrite wrun_None. discriminate.
+  - intros sg q [].
+  - intros x b Hx. apply pre_nil_inv in Hx. destruct x; discriminate.
+  - intros q b r Hd. rewrite delta_init in Hd by reflexivity. discriminate.
+  - intros q [].
+  - constructor.
+  - intros q Hq. left. unfold bkey in Hq. simpl in Hq. weq q ([] : word); [auto|congruence].
+  - intros q Hq. apply key_singleton in Hq. subst. unfold bkey. simpl. discriminate.
+  - intros q b r Hd. rewrite delta_init in Hd by reflexivity. discriminate.
+  - intros q Hq Hn. apply key_singleton in Hq. contradiction.
 Qed.
 
-Lemma chain_keys : forall r p y, wassoc y (chain p r) <> None -> exists y1, pre y1 r /\ y = p ++ y1.
+Lemma first_nil_inv : Inv (add_to_trie fl_init []) [[]] [].
 Proof.
-  induction r as [|c r IH]; intros p y H; simpl in H.
-  - weq y p; [|congruence]. exists []. split; [apply pre_nil|rewrite app_nil_r; exact E].
-  - weq y p.
-    + exists []. split; [apply pre_nil|rewrite app_nil_r; exact E].
-    + destruct (IH _ _ H) as [y1 [[t Hp] ->]]. exists (c :: y1). split; [exists t; simpl; congruence|apply snoc_app].
+  unfold add_to_trie. simpl. constructor; simpl.
+  - constructor; [intros []|constructor].
+  - intros q row H. weq q ([] : word); [|discriminate]. inversion H. constructor.
+  - intros x Hx. apply pre_nil_inv in Hx. subst. unfold key. simpl. discriminate.
+  - intros x b Hx. apply pre_nil_inv in Hx. destruct x; discriminate.
+  - intros q b r Hd. rewrite delta_init in Hd by reflexivity. discriminate.
+  - intros x Hx v. apply pre_nil_inv in Hx. subst. simpl.
+    destruct v as [|b v]; unfold wacc; simpl.
+    + split; [auto|reflexivity].
+    + rewrite wrun_None. simpl. split; [discriminate|]. intros [H|[]]. discriminate.
+  - intros sg q [].
+  - intros x b Hx. apply pre_nil_inv in Hx. destruct x; discriminate.
+  - intros q b r Hd. rewrite delta_init in Hd by reflexivity. discriminate.
+  - intros q [<-|[]]. unfold key. simpl. discriminate.
+  - constructor; [intros []|constructor].
+  - intros q Hq. left. unfold bkey in Hq. simpl in Hq. weq q ([] : word); [auto|congruence].
+  - intros q Hq. apply key_singleton in Hq. subst. unfold bkey. simpl. discriminate.
+  - intros q b r Hd. rewrite delta_init in Hd by reflexivity. discriminate.
+  - intros q Hq Hn. apply key_singleton in Hq. contradiction.
 Qed.
 
-Lemma bchain_lookup : forall r p y1 b y2, r = y1 ++ b :: y2 ->
-  wassoc (p ++ y1 ++ [b]) (bchain p r) = Some [p ++ y1].
+Lemma first_inv w0 : Inv (add_to_trie fl_init w0) [w0] w0.
 Proof.
-  induction r as [|c r IH]; intros p y1 b y2 E; [destruct y1; discriminate|].
-  destruct y1 as [|d y1]; simpl in E; inversion E; subst; simpl.
-  - rewrite weqb_refl, app_nil_r. reflexivity.
-  - weq (p ++ d :: y1 ++ [b]) (p ++ [d]).
-    + exfalso. apply app_inv_head in E0. inversion E0. destruct y1; discriminate.
-    + rewrite <- (snoc_app p d (y1 ++ [b])). rewrite (IH (p ++ [d]) y1 b y2 eq_refl). rewrite snoc_app. reflexivity.
+  destruct w0 as [|a r]; [exact first_nil_inv|].
+  change (add_to_trie fl_init (a :: r)) with (add_to_trie fl_init' ([] ++ a :: r)).
+  apply (add_ok fl_init' [] [] a r init'_inv). intros y w _ _ [].
 Qed.
 
-Lemma bchain_keys : forall r p y, wassoc y (bchain p r) <> None -> exists y1, y1 <> [] /\ pre y1 r /\ y = p ++ y1.
+(* ---------- the loop over the sorted words ---------- *)
+Lemma fl_loop_ok : forall rest s prev done,
+  Inv s done prev -> (forall w, In w done -> lex_le w prev) -> StronglySorted lex_lt (prev :: rest) ->
+  exists s' done', fl_loop s prev rest = Ok s' /\ Inv s' done' [] /\
+                   (forall w, In w done' <-> In w done \/ In w rest).
 Proof.
-  induction r as [|c r IH]; intros p y H; simpl in H; [congruence|].
-  weq y (p ++ [c]).
-  - exists [c]. split; [discriminate|]. split; [exists r; reflexivity|exact E].
-  - destruct (IH _ _ H) as [y1 [Hne [[t Hp] ->]]]. exists (c :: y1).
-    split; [discriminate|]. split; [exists t; simpl; congruence|apply snoc_app].
+  induction rest as [|cur rest IH]; intros s prev done HI Hle Hs; simpl.
+  - destruct (compress_ok s done prev [] HI) as [s' [E HI']]. rewrite lcp_nil_r in HI'. simpl in HI'.
+    exists s', done. split; [exact E|]. split; [exact HI'|]. intro w. tauto.
+  - destruct (compress_ok s done prev cur HI) as [s1 [E1 HI1]]. rewrite E1. simpl.
+    inversion Hs as [|? ? Hs' Hf]; subst. rewrite Forall_forall in Hf.
+    assert (Hlt : lex_lt prev cur) by (apply Hf; left; reflexivity).
+    destruct (lcp_spec prev cur) as (c & p & q & Ep & Eq & Hl & Hd).
+    assert (Hfn : firstn (lcp_len prev cur) prev = c).
+    { rewrite <- Hl, Ep. rewrite firstn_app, Nat.sub_diag, firstn_all. simpl. apply app_nil_r. }
+    rewrite Hfn in HI1.
+    destruct q as [|a r].
+    { exfalso. rewrite app_nil_r in Eq. subst cur prev. destruct p as [|b p].
+      - rewrite app_nil_r in Hlt. exact (lex_lt_irrefl _ Hlt).
+      - exact (lex_lt_asym _ _ Hlt (lex_lt_prefix c b p)). }
+    assert (Hfresh : forall y w, y <> [] -> pre y (a :: r) -> In w done -> ~ pre (c ++ y) w).
+    { intros y w Hy [t Ht] Hw Hp. destruct y as [|a' y]; [contradiction|]. simpl in Ht. inversion Ht; subst a'.
+      apply (fresh_prefix prev cur w c p a r Ep Eq).
+      - destruct p; [exact I|exact Hd].
+      - exact Hlt.
+      - apply Hle. exact Hw.
+      - eapply pre_trans; [|exact Hp]. exists y. symmetry. apply snoc_app. }
+    pose proof (add_ok s1 done c a r HI1 Hfresh) as HI2. rewrite <- Eq in HI2.
+    destruct (IH (add_to_trie s1 cur) cur (cur :: done) HI2) as [s' [done' [E' [HI' Hd']]]].
+    + intros w [<-|Hw]; [right; reflexivity|]. left. eapply lex_le_lt_trans; [apply Hle; exact Hw|exact Hlt].
+    + exact Hs'.
+    + exists s', done'. split; [exact E'|]. split; [exact HI'|]. intro w. rewrite Hd'. simpl. tauto.
 Qed.
 
-(* ---------- add_loop in closed form ---------- *)
-Lemma add_loop_pending : forall rest s p,
-  wassoc p (fl_trans s) = None ->
-  (forall y, y <> [] -> pre y rest -> wassoc (p ++ y) (fl_trans s) = None /\ wassoc (p ++ y) (fl_back s) = None) ->
-  add_loop s p rest =
-    mkfl (fl_trans s ++ chain p rest) (fl_back s ++ bchain p rest) (wadd (p ++ rest) (fl_fin s)) (fl_sigs s).
+Lemma fl_build_ok lang : NoDup lang -> lang <> [] ->
+  exists s done, fl_build lang = Ok s /\ Inv s done [] /\ (forall w, In w done <-> In w lang).
 Proof.
-  induction rest as [|a r IH]; intros s p Hp Hf; simpl.
-  - rewrite wset_absent by (apply wassoc_None; exact Hp). rewrite !app_nil_r. reflexivity.
-  - destruct (Hf [a] ltac:(discriminate) (pre_app [a] r)) as [Hn1 Hn2].
-    rewrite (wsetdefault_absent p [] _ Hp). rewrite wassoc_app, Hp. simpl. rewrite weqb_refl.
-    unfold row_setdefault. simpl. rewrite (wset_app_last p _ [] _ Hp).
-    rewrite (wsetdefault_absent _ [] _ Hn2). rewrite wassoc_app, Hn2. simpl. rewrite weqb_refl.
-    unfold wadd at 1. simpl. rewrite (wset_app_last _ _ [] _ Hn2).
-    rewrite IH; simpl.
-    + rewrite <- !app_assoc. reflexivity.
-    + rewrite wassoc_app, Hn1. simpl. weq (p ++ [a]) p; [exfalso; exact (app_neq_self p [a] ltac:(discriminate) E)|reflexivity].
-    + intros y Hy Hpy. destruct (Hf (a :: y) ltac:(discriminate)) as [H1 H2].
-      { destruct Hpy as [t ->]. exists t. reflexivity. }
-      rewrite snoc_app. rewrite !wassoc_app, H1, H2. simpl. split.
-      * weq (p ++ a :: y) p; [exfalso; exact (app_neq_self p (a :: y) ltac:(discriminate) E)|reflexivity].
-      * weq (p ++ a :: y) (p ++ [a]); [|reflexivity]. apply app_inv_head in E. inversion E. contradiction.
+  intros Hnd Hne. unfold fl_build. pose proof (sort_words_sorted lang Hnd) as Hs.
+  pose proof (sort_words_In) as Hin.
+  destruct (sort_words lang) as [|w0 rest] eqn:E.
+  - exfalso. destruct lang as [|w l]; [contradiction|]. specialize (Hin w (w :: l)). rewrite E in Hin.
+    apply Hin. left. reflexivity.
+  - destruct (fl_loop_ok rest (add_to_trie fl_init w0) w0 [w0] (first_inv w0)) as [s [done [E1 [HI Hd]]]].
+    + intros w [<-|[]]. right. reflexivity.
+    + exact Hs.
+    + exists s, done. split; [exact E1|]. split; [exact HI|]. intro w. rewrite Hd. rewrite <- (Hin w lang), E. simpl. tauto.
 Qed.
 
-Lemma add_loop_branch s u a r row :
-  wassoc u (fl_trans s) = Some row -> assoc a row = None ->
-  (forall y, y <> [] -> pre y (a :: r) -> wassoc (u ++ y) (fl_trans s) = None /\ wassoc (u ++ y) (fl_back s) = None) ->
-  add_loop s u (a :: r) =
-    mkfl (wset u (row ++ [(a, u ++ [a])]) (fl_trans s) ++ chain (u ++ [a]) r) (fl_back s ++ bchain u (a :: r))
-         (wadd (u ++ a :: r) (fl_fin s)) (fl_sigs s).
+(* ---------- numbering the states ---------- *)
+Lemma windex_lt q l i : windex q l = Some i -> i < length l.
 Proof.
-  intros Hu Ha Hf. simpl.
-  destruct (Hf [a] ltac:(discriminate) (pre_app [a] r)) as [Hn1 Hn2].
-  rewrite wsetdefault_present by (rewrite Hu; discriminate). rewrite Hu.
-  unfold row_setdefault. rewrite Ha.
-  rewrite (wsetdefault_absent _ [] _ Hn2). rewrite wassoc_app, Hn2. simpl. rewrite weqb_refl.
-  unfold wadd at 1. simpl. rewrite (wset_app_last _ _ [] _ Hn2).
-  rewrite add_loop_pending; simpl.
-  - rewrite <- !app_assoc. reflexivity.
-  - rewrite wassoc_wset. weq (u ++ [a]) u; [exfalso; exact (app_neq_self u [a] ltac:(discriminate) E)|exact Hn1].
-  - intros y Hy Hpy. destruct (Hf (a :: y) ltac:(discriminate)) as [H1 H2].
-    { destruct Hpy as [t ->]. exists t. reflexivity. }
-    rewrite snoc_app. rewrite wassoc_wset, wassoc_app, H1, H2. simpl. split.
-    + weq (u ++ a :: y) u; [exfalso; exact (app_neq_self u (a :: y) ltac:(discriminate) E)|reflexivity].
-    + weq (u ++ a :: y) (u ++ [a]); [|reflexivity]. apply app_inv_head in E. inversion E. contradiction.
+  revert i. induction l as [|x l IH]; intros i H; simpl in *; [discriminate|].
+  destruct (word_eqb q x); [inversion H; lia|]. destruct (windex q l); [|discriminate]. inversion H. specialize (IH _ eq_refl). lia.
 Qed.
 
-(* walking along the path changes nothing *)
-Lemma add_loop_walk s done u : Inv s done u -> forall y x rest, pre (x ++ y) u ->
-  add_loop s x (y ++ rest) = add_loop s (x ++ y) rest.
+Lemma windex_In q l : In q l -> exists i, windex q l = Some i.
 Proof.
-  intro HI. induction y as [|b y IH]; intros x rest Hp; simpl.
-  - rewrite app_nil_r. reflexivity.
-  - assert (Hpb : pre (x ++ [b]) u) by (eapply pre_trans; [|exact Hp]; exists y; symmetry; apply snoc_app).
-    pose proof (i_path _ _ _ HI x (pre_snoc_l _ _ _ Hpb)) as Hk.
-    pose proof (i_link _ _ _ HI x b Hpb) as Hl. unfold wdelta in Hl.
-    rewrite wsetdefault_present by exact Hk.
-    destruct (wassoc x (fl_trans s)) as [row|] eqn:Ex; [|discriminate].
-    unfold row_setdefault. rewrite Hl. rewrite (wset_same _ _ _ Ex).
-    pose proof (i_back _ _ _ HI x b Hpb) as Hb.
-    rewrite wsetdefault_present by (rewrite Hb; discriminate). rewrite Hb.
-    unfold wadd. simpl. rewrite weqb_refl. simpl. rewrite (wset_same _ _ _ Hb).
-    replace (mkfl (fl_trans s) (fl_back s) (fl_fin s) (fl_sigs s)) with s by (destruct s; reflexivity).
-    rewrite IH by (rewrite snoc_app; exact Hp). rewrite snoc_app. reflexivity.
+  induction l as [|x l IH]; simpl; [tauto|]. intro H. weq q x; [eauto|].
+  destruct H as [H|H]; [congruence|]. destruct (IH H) as [i ->]. simpl. eauto.
 Qed.
 
-Lemma wacc_cons s y b v :
-  wacc s y (b :: v) = match wdelta (fl_trans s) y b with Some t => wacc s t v | None => false end.
+Lemma windex_inj q q' l i : windex q l = Some i -> windex q' l = Some i -> q = q'.
 Proof.
-  unfold wacc. simpl. destruct (wdelta (fl_trans s) y b); [reflexivity|]. rewrite wrun_None. reflexivity.
+  revert i. induction l as [|x l IH]; intros i H H'; simpl in *; [discriminate|].
+  weq q x; weq q' x; subst; try congruence.
+  - inversion H; subst. destruct (windex q' l); discriminate.
+  - inversion H'; subst. destruct (windex q l); discriminate.
+  - destruct (windex q l) as [j|]; [|discriminate]. destruct (windex q' l) as [j'|]; [|discriminate].
+    simpl in *. inversion H; inversion H'; subst. apply (IH j'); [f_equal; lia|reflexivity].
 Qed.
 
-(* ---------- the invariant after add_to_trie ---------- *)
-Section Add.
-  Variables (s : flst) (done : list word) (u : word) (a : nat) (r : word).
-  Hypothesis HI : Inv s done u.
-  Hypothesis Hfresh : forall y w, y <> [] -> pre y (a :: r) -> In w done -> ~ pre (u ++ y) w.
+Lemma wnum_lt keys q : In q keys -> wnum keys q < length keys.
+Proof. intro H. unfold wnum. destruct (windex_In q keys H) as [i E]. rewrite E. apply (windex_lt _ _ _ E). Qed.
 
-  Let cur := u ++ a :: r.
-  Let np := u ++ [a].
+Lemma wnum_inj keys q q' : In q keys -> In q' keys -> wnum keys q = wnum keys q' -> q = q'.
+Proof.
+  intros H H'. unfold wnum. destruct (windex_In q keys H) as [i E]. destruct (windex_In q' keys H') as [i' E'].
+  rewrite E, E'. intros ->. exact (windex_inj _ _ _ _ E E').
+Qed.
 
-  Lemma cur_np : cur = np ++ r.
-  Proof. unfold cur, np. symmetry. apply snoc_app. Qed.
+Lemma wnum_seq l : NoDup l -> map (wnum l) l = seq 0 (length l).
+Proof.
+  induction l as [|x l IH]; intro H; simpl; [reflexivity|]. inversion H; subst. f_equal.
+  - unfold wnum. simpl. rewrite weqb_refl. reflexivity.
+  - rewrite <- seq_shift, <- (IH H3), map_map. apply map_ext_in. intros q Hq. unfold wnum. simpl.
+    weq q x; [subst; contradiction|]. destruct (windex_In q l Hq) as [i Ei]. rewrite Ei. reflexivity.
+Qed.
 
-  Lemma fresh_bk y : y <> [] -> pre y (a :: r) -> wassoc (u ++ y) (fl_back s) = None.
+Lemma assoc_map_snd_w (g : word -> nat) a (row : wrow) :
+  assoc a (map (fun c => (fst c, g (snd c))) row) = option_map g (assoc a row).
+Proof.
+  induction row as [|[b t] row IH]; simpl; [reflexivity|]. destruct (Nat.eqb a b); [reflexivity|exact IH].
+Qed.
+
+Lemma assoc_numbered {B C} (g : word -> nat) (h : B -> C) q (l : list (word * B)) :
+  (forall k, In k (map fst l) -> g k = g q -> k = q) ->
+  assoc (g q) (map (fun e => (g (fst e), h (snd e))) l) = option_map h (wassoc q l).
+Proof.
+  induction l as [|[k v] l IH]; intro Hinj; simpl; [reflexivity|].
+  destruct (Nat.eqb (g q) (g k)) eqn:E.
+  - apply Nat.eqb_eq in E. rewrite (Hinj k (or_introl eq_refl) (eq_sym E)). rewrite weqb_refl. reflexivity.
+  - weq q k; [subst; rewrite Nat.eqb_refl in E; discriminate|]. apply IH. intros k' Hk'. apply Hinj. right. exact Hk'.
+Qed.
+
+Section Number.
+  Variables (syms : list nat) (s : flst) (done : list word).
+  Hypothesis HI : Inv s done [].
+  Hypothesis Hnd : NoDup syms.
+  Hypothesis Hover : forall w, In w done -> word_over syms w.
+
+  Let keys := fl_names s.
+  Let g := wnum keys.
+  Let m := fl_number syms s.
+
+  Lemma key_In q : key q (fl_trans s) <-> In q keys.
+  Proof. apply wassoc_key. Qed.
+
+  Lemma num_row q : key q (fl_trans s) ->
+    d_row m (g q) = option_map (map (fun c => (fst c, g (snd c)))) (wassoc q (fl_trans s)).
   Proof.
-    intros Hy Hp. destruct (wassoc (u ++ y) (fl_back s)) eqn:E; [|reflexivity]. exfalso.
-    destruct (i_names _ _ _ HI (u ++ y)) as [H|[w [Hw Hpw]]].
-    - unfold bkey. rewrite E. discriminate.
-    - apply app_eq_nil in H. destruct H. contradiction.
-    - exact (Hfresh y w Hy Hp Hw Hpw).
+    intro Hk. unfold d_row, m, fl_number. simpl. apply (assoc_numbered g). intros k Hin E.
+    apply (wnum_inj keys); [exact Hin|apply key_In; exact Hk|exact E].
   Qed.
 
-  Lemma fresh_tr y : y <> [] -> pre y (a :: r) -> wassoc (u ++ y) (fl_trans s) = None.
+  Lemma num_delta q a : key q (fl_trans s) -> d_delta m (g q) a = option_map g (wdelta (fl_trans s) q a).
   Proof.
-    intros Hy Hp. destruct (wassoc (u ++ y) (fl_trans s)) eqn:E; [|reflexivity]. exfalso.
-    apply (i_keys _ _ _ HI (u ++ y)); [unfold key; rewrite E; discriminate|]. apply fresh_bk; assumption.
+    intro Hk. unfold d_delta, wdelta. rewrite (num_row q Hk). destruct (wassoc q (fl_trans s)); [|reflexivity].
+    simpl. apply assoc_map_snd_w.
   Qed.
 
-  Lemma fresh_new y1 : pre y1 r -> wassoc (np ++ y1) (fl_trans s) = None.
+  Lemma num_run w : forall q, key q (fl_trans s) ->
+    dfa_run m (Some (g q)) w = option_map g (wrun (fl_trans s) (Some q) w).
   Proof.
-    intros [t Ht]. unfold np. rewrite snoc_app. apply fresh_tr; [discriminate|]. exists t. simpl. congruence.
+    induction w as [|a w IH]; intros q Hk; simpl; [reflexivity|]. rewrite (num_delta q a Hk).
+    destruct (wdelta (fl_trans s) q a) as [t|] eqn:Ed; simpl.
+    - apply IH. apply (i_closed _ _ _ HI _ _ _ Ed).
+    - rewrite dfa_run_None, wrun_None. reflexivity.
   Qed.
 
-  Lemma u_row : exists row, wassoc u (fl_trans s) = Some row /\ assoc a row = None.
+  Lemma run_key w : forall q t, key q (fl_trans s) -> wrun (fl_trans s) (Some q) w = Some t -> key t (fl_trans s).
   Proof.
-    pose proof (i_path _ _ _ HI u (pre_refl _)) as Hk.
-    destruct (wassoc u (fl_trans s)) as [row|] eqn:Eu; [|exfalso; apply Hk; exact Eu].
-    exists row. split; [reflexivity|]. destruct (assoc a row) as [t|] eqn:Ea; [|reflexivity]. exfalso.
-    assert (Hd : wdelta (fl_trans s) u a = Some t) by (unfold wdelta; rewrite Eu; exact Ea).
-    destruct (i_live _ _ _ HI t (i_closed _ _ _ HI _ _ _ Hd)) as [v Hv].
-    assert (Hacc : wacc s u (a :: v) = true) by (rewrite wacc_cons, Hd; exact Hv).
-    apply (i_lang _ _ _ HI u (pre_refl _)) in Hacc.
-    apply (Hfresh [a] _ ltac:(discriminate) (pre_app [a] r) Hacc). exists v. symmetry. apply snoc_app.
+    induction w as [|a w IH]; intros q t Hk H; simpl in H; [inversion H; subst; exact Hk|].
+    destruct (wdelta (fl_trans s) q a) as [t'|] eqn:Ed; [|rewrite wrun_None in H; discriminate].
+    apply (IH t' t); [apply (i_closed _ _ _ HI _ _ _ Ed)|exact H].
   Qed.
 
-  Variable row : wrow.
-  Hypothesis Hrow : wassoc u (fl_trans s) = Some row.
-  Hypothesis Harow : assoc a row = None.
-
-  Let row' := row ++ [(a, np)].
-  Let T0 := wset u row' (fl_trans s).
-  Let tr' := T0 ++ chain np r.
-  Let bk' := fl_back s ++ bchain u (a :: r).
-  Let s' := mkfl tr' bk' (wadd cur (fl_fin s)) (fl_sigs s).
-
-  Lemma add_closed : add_to_trie s cur = s'.
+  Lemma num_final q : key q (fl_trans s) -> memb (g q) (d_finals m) = wmem q (fl_fin s).
   Proof.
-    unfold add_to_trie, cur. rewrite (add_loop_walk s done u HI u [] (a :: r) (pre_refl _)). simpl.
-    apply add_loop_branch; [exact Hrow|exact Harow|].
-    intros y Hy Hp. split; [apply fresh_tr|apply fresh_bk]; assumption.
+    intro Hk. apply eq_true_iff_eq. rewrite memb_In, wmem_In. unfold m, fl_number. simpl. rewrite in_map_iff. split.
+    - intros [q' [E Hin]]. assert (q' = q); [|subst; exact Hin].
+      apply (wnum_inj keys); [apply key_In; apply (i_fin _ _ _ HI); exact Hin|apply key_In; exact Hk|exact E].
+    - intro Hin. exists q. split; [reflexivity|exact Hin].
   Qed.
 
-  Lemma tr'_old y : key y (fl_trans s) ->
-    wassoc y tr' = if word_eqb y u then Some row' else wassoc y (fl_trans s).
+  Lemma root_key : key [] (fl_trans s).
+  Proof. apply (i_path _ _ _ HI). apply pre_nil. Qed.
+
+  Lemma num_acc w : dfa_acc m w = wacc s [] w.
   Proof.
-    intro Hk. unfold key in Hk. unfold tr', T0. rewrite wassoc_app, wassoc_wset. destruct (word_eqb y u); [reflexivity|].
-    destruct (wassoc y (fl_trans s)); [reflexivity|exfalso; apply Hk; reflexivity].
-  Qed.
-
-  Lemma tr'_new y1 y2 : r = y1 ++ y2 ->
-    wassoc (np ++ y1) tr' = Some (match y2 with [] => [] | b :: _ => [(b, np ++ y1 ++ [b])] end).
-  Proof.
-    intro E. unfold tr', T0. rewrite wassoc_app, wassoc_wset.
-    weq (np ++ y1) u.
-    - exfalso. unfold np in E0. rewrite snoc_app in E0. exact (app_neq_self u (a :: y1) ltac:(discriminate) E0).
-    - rewrite (fresh_new y1) by (exists y2; exact E). apply chain_lookup. exact E.
-  Qed.
-
-  Lemma tr'_key y : key y tr' -> key y (fl_trans s) \/ exists y1, pre y1 r /\ y = np ++ y1.
-  Proof.
-    unfold key, tr', T0. rewrite wassoc_app, wassoc_wset. weq y u.
-    - intros _. left. subst. rewrite Hrow. discriminate.
-    - destruct (wassoc y (fl_trans s)); [intros _; left; discriminate|]. intro H. right. apply chain_keys. exact H.
-  Qed.
-
-  Lemma key_old_new y : key y (fl_trans s) -> key y tr'.
-  Proof.
-    intro Hk. unfold key. rewrite (tr'_old y Hk). destruct (word_eqb y u); [discriminate|exact Hk].
-  Qed.
-
-  Lemma key_new y1 : pre y1 r -> key (np ++ y1) tr'.
-  Proof. intros [y2 E]. unfold key. rewrite (tr'_new y1 y2 E). discriminate. Qed.
-
-  Lemma new_not_old y1 : pre y1 r -> ~ key (np ++ y1) (fl_trans s).
-  Proof. intros Hp Hk. apply Hk. apply fresh_new. exact Hp. Qed.
-
-  Lemma delta'_old y b t : wdelta (fl_trans s) y b = Some t -> wdelta tr' y b = Some t.
-  Proof.
-    intro Hd. pose proof (wdelta_key _ _ _ _ Hd) as Hk. unfold wdelta in *. rewrite (tr'_old y Hk). weq y u.
-    - subst. rewrite Hrow in Hd. unfold row'. rewrite assoc_app, Hd. reflexivity.
-    - exact Hd.
-  Qed.
-
-  Lemma delta'_inv y b t : wdelta tr' y b = Some t ->
-    wdelta (fl_trans s) y b = Some t \/ (y = u /\ b = a /\ t = np) \/
-    (exists y1 y2, r = y1 ++ b :: y2 /\ y = np ++ y1 /\ t = np ++ y1 ++ [b]).
-  Proof.
-    intro Hd. destruct (tr'_key y (wdelta_key _ _ _ _ Hd)) as [Hk|[y1 [[y2 E] ->]]].
-    - unfold wdelta in *. rewrite (tr'_old y Hk) in Hd. weq y u; [|left; exact Hd].
-      subst y. rewrite Hrow. unfold row' in Hd. rewrite assoc_app in Hd. destruct (assoc b row); [left; exact Hd|].
-      simpl in Hd. destruct (Nat.eqb b a) eqn:Eb; [|discriminate]. apply Nat.eqb_eq in Eb. inversion Hd.
-      right. left. auto.
-    - right. right. unfold wdelta in Hd. rewrite (tr'_new y1 y2 E) in Hd. destruct y2 as [|b0 y2]; [discriminate|].
-      simpl in Hd. destruct (Nat.eqb b b0) eqn:Eb; [|discriminate]. apply Nat.eqb_eq in Eb. subst b0. inversion Hd.
-      exists y1, y2. auto.
-  Qed.
-
-  Lemma delta'_u_a : wdelta tr' u a = Some np.
-  Proof.
-    unfold wdelta. rewrite tr'_old by (unfold key; rewrite Hrow; discriminate). rewrite weqb_refl.
-    unfold row'. rewrite assoc_app, Harow. simpl. rewrite Nat.eqb_refl. reflexivity.
-  Qed.
-
-  Lemma cur_not_key : ~ key cur (fl_trans s).
-  Proof. rewrite cur_np. apply new_not_old. apply pre_refl. Qed.
-
-  Lemma np_longer y y1 : pre y u -> y <> np ++ y1.
-  Proof.
-    intros Hp E. apply pre_length in Hp. apply (f_equal (@length nat)) in E. unfold np in E.
-    rewrite !app_length in E. simpl in E. lia.
-  Qed.
-
-  (* states off the old path: nothing changes *)
-  Definition offpath (y : word) : Prop := key y (fl_trans s) /\ ~ pre y u.
-
-  Lemma off_step y b : offpath y ->
-    wdelta tr' y b = wdelta (fl_trans s) y b /\ forall t, wdelta (fl_trans s) y b = Some t -> offpath t.
-  Proof.
-    intros [Hk Hn]. split.
-    - unfold wdelta. rewrite (tr'_old y Hk). weq y u; [exfalso; apply Hn; subst; apply pre_refl|reflexivity].
-    - intros t Hd. split; [apply (i_closed _ _ _ HI _ _ _ Hd)|]. intro Hp.
-      pose proof (i_in _ _ _ HI _ _ _ Hd Hp) as E. subst t. apply Hn. eapply pre_snoc_l. exact Hp.
-  Qed.
-
-  Lemma off_acc v : forall y, offpath y -> wacc s' y v = wacc s y v.
-  Proof.
-    induction v as [|b v IH]; intros y Hy.
-    - unfold wacc. simpl. rewrite wmem_wadd. weq y cur; [|reflexivity].
-      exfalso. apply cur_not_key. rewrite <- E. apply Hy.
-    - rewrite !wacc_cons. simpl. destruct (off_step y b Hy) as [E Hoff]. rewrite E.
-      destruct (wdelta (fl_trans s) y b) as [t|]; [|reflexivity]. apply IH. apply Hoff. reflexivity.
-  Qed.
-
-  (* the fresh chain: from u.a.y1 exactly the rest of the new word is accepted *)
-  Lemma chain_acc v : forall y1 y2, r = y1 ++ y2 -> (wacc s' (np ++ y1) v = true <-> v = y2).
-  Proof.
-    induction v as [|b v IH]; intros y1 y2 E.
-    - unfold wacc. simpl. rewrite wmem_wadd.
-      assert (Hnf : wmem (np ++ y1) (fl_fin s) = false).
-      { apply wmem_false. intro Hin. apply (new_not_old y1); [exists y2; exact E|]. apply (i_fin _ _ _ HI). exact Hin. }
-      rewrite Hnf, orb_false_r, word_eqb_spec, cur_np, E. split.
-      + intro H. apply app_inv_head in H. rewrite <- (app_nil_r y1) in H at 1. apply app_inv_head in H. congruence.
-      + intros <-. rewrite app_nil_r. reflexivity.
-    - rewrite wacc_cons. simpl. unfold wdelta. rewrite (tr'_new y1 y2 E). destruct y2 as [|b0 y2]; simpl.
-      + split; discriminate.
-      + destruct (Nat.eqb b b0) eqn:Eb.
-        * apply Nat.eqb_eq in Eb. subst b0. rewrite (IH (y1 ++ [b]) y2).
-Show.
+    unfold dfa_acc, dfa_acc_from, wacc. change (d_init m) with (g []). rewrite (num_run w [] root_key).
+    destruct (wrun (fl_trans s) (Some []) w) as [t|] eqn:E. 2:{ Show. 
 Abort.
